@@ -42,3 +42,36 @@ package forwarder
 //@ modifies martian.ErrorStatus.Status, martian.ErrorStatus.Err
 //@ ensures err is martian.ErrorStatus ==> code == err.(martian.ErrorStatus).Status
 //@ ensures errStatus(err) == -1 ==> code == 0
+
+// ---- access control closures (C04) ----
+
+//@ globalinv ErrProxyAuthentication != nil && nonnil(ErrProxyLocalhost) && nonnil(ErrProxyDenied) && nonnil(ErrProxyOutsideAllowedTimeframe)
+//@ pred nonnil(e error) = e != nil
+
+// basicAuth: a request is let through iff its Proxy-Authorization carries
+// exactly the configured credentials; otherwise ErrProxyAuthentication (-> 407).
+//@ func (*HTTPProxy).basicAuth$1
+//@ property C04
+//@ requires req != nil && req.Header != nil && ba != nil
+//@ modifies elems(byte)
+//@ ensures result == nil || result == ErrProxyAuthentication
+//@ ensures hdrFirst(req.Header, canon(ba.header)) == "" ==> result == ErrProxyAuthentication
+
+//@ pred hdrFirst(h http.Header, k string) = ite((k in h) && len(h[k]) > 0, h[k][0], "")
+
+// isLocalhost: every name of the localhost list (compared in lower case) and
+// every loopback or unspecified IP literal, in any spelling.
+//@ func (*HTTPProxy).isLocalhost
+//@ property C04 C05
+//@ requires hp != nil
+//@ pure
+//@ ensures (exists i int :: 0 <= i && i < len(hp.localhost) && hp.localhost[i] == toLower(host)) ==> result
+//@ ensures parseOK(toLower(host)) && (isLoopbackIP(toLower(host)) || isUnspecIP(toLower(host))) ==> result
+//@ ensures result ==> (exists i int :: 0 <= i && i < len(hp.localhost) && hp.localhost[i] == toLower(host)) || (parseOK(toLower(host)) && (isLoopbackIP(toLower(host)) || isUnspecIP(toLower(host))))
+
+//@ func (*HTTPProxy).denyLocalhost$1
+//@ property C04
+//@ requires req != nil && req.URL != nil && hp != nil
+//@ pure
+//@ ensures result == nil || result == ErrProxyLocalhost
+//@ ensures parseOK(toLower(urlHostname(req.URL))) && (isLoopbackIP(toLower(urlHostname(req.URL))) || isUnspecIP(toLower(urlHostname(req.URL)))) ==> result == ErrProxyLocalhost
